@@ -152,6 +152,23 @@ def locs(e):
                              type(e).__name__ + "._get_dependencies")
             except Exception as ex:      # noqa
                 rac.fail(f"slot-acc {bname} {fname}", f"_get_dependencies(out) of {e} raised {ex!r}", script, type(e).__name__ + "._get_dependencies")
+        # ... and for the SAME node obtained by another construction route (its pickle hook applied by hand, copy, deepcopy): a node
+        # that precomputes anything from its constructor arguments must do so for every spelling of those arguments
+        import copy as _copy
+        for rname, route, rsrc in (("reduce", lambda q: type(q)(*q.__reduce__()[1]), "type(e0)(*e0.__reduce__()[1])"),
+                                   ("copy", _copy.copy, "__import__('copy').copy(e0)"), ("deepcopy", _copy.deepcopy, "__import__('copy').deepcopy(e0)")):
+            try:
+                e2 = route(e)
+                got2 = e2._get_dependencies()
+            except Exception:      # noqa
+                continue
+            want2 = locs(e2)
+            rac.case((bname, fname, rname), nontrivial=bool(want2))
+            if got2 != want2:
+                rac.fail(f"rebuilt {rname} {bname} {fname}", f"_get_dependencies of {e2} (rebuilt through {rname}): reported {sorted(map(str, got2 or []))}, "
+                         f"locations inside: {sorted(map(str, want2))}",
+                         slot_script(bsrcs[bname], FILL[fname]).replace("e = " + bsrcs[bname], "e0 = " + bsrcs[bname] + "\ne = " + rsrc),
+                         type(e2).__name__ + "._get_dependencies")
         # ... and as an operand of an enclosing node (the enclosing node hands down its own, still empty, accumulator)
         for wname, wrap in (("1+e", lambda q: 1 + q), ("-e", lambda q: -q), ("abs(e)", abs), ("f(e)", lambda q: fr.f(q)),
                             ("f(k=e)", lambda q: fr.f(k=q))):
